@@ -1106,6 +1106,7 @@ func (vc *VC) execConvert(fr *frame, st *State, x *ssa.Convert) Val {
 		return scalar(vc.bytesContent(st, v))
 	case isByteSlice(to) && isString(from):
 		s := vc.asInt(v)
+		vc.assumeGlobal(p.Le(p.Int(0), p.App("strlen", SInt, s))) // lengths of strings are non-negative
 		return vc.bytesOfContent(st, s, p.App("strlen", SInt, s))
 	case isString(to) && fromInt:
 		return scalar(p.App("runestr", SInt, vc.asInt(v)))
